@@ -15,7 +15,7 @@ LEVEL_TEXT = "Complete enumeration of interruption/kill schedules within the sta
 ASSUMPTIONS = ["a kill is modelled as abandoning the crawler object without save_state() and building a new one from the persisted state file",
                "the bucket set does not change during a cycle"]
 EXHAUSTIVE = {"quick": True, "thorough": True}
-REQUIRED_CLASSES = ["interrupt-mid-prefix", "interrupt-prefix-end", "restart-from-state", "kill"]
+REQUIRED_CLASSES = ["interrupt-mid-prefix", "interrupt-prefix-end", "restart-from-state", "kill", "lease-checking-crawler", "kill-after-finished-cycle"]
 BUDGET = {"quick": 900, "thorough": 3600}
 
 LAYOUTS_QUICK = [[(0, 2), (500, 1), (1023, 2)], [(3, 3), (4, 1)]]
@@ -50,8 +50,12 @@ def run_shard(spec, ctx):
                 yield {"layout": lay, "mask": mask, "restart": restart, "kill": None}
             # kills: one kill point per case, restart mode 'never' for the other interruptions
             if bin(mask).count("1") <= 2:
-                for k in range(P):
+                for k in range(P + 1):       # k == P: killed after the end-of-cycle work (finished_cycle) but before the state file records the finished cycle
                     yield {"layout": lay, "mask": mask, "restart": "never", "kill": k}
+            if bin(mask).count("1") <= 1:
+                # the same with the real lease-checking crawler class (its own state/history handling on top of ShareCrawler)
+                for k in [None] + list(range(P + 1)):
+                    yield {"layout": lay, "mask": mask, "restart": "never" if k is not None else "always", "kill": k, "cls": "lease"}
     ctx.enumerate(gen(), run_case)
 
 
@@ -67,11 +71,32 @@ def run_case(case, ctx):
     layout = [tuple(x) for x in case["layout"]]
     statefile = os.path.join(d, "crawler.state")
     log = []          # (cycle, bucket)
-    env = {"point": 0, "mask": case["mask"], "kill": case["kill"], "killed_cycles": set(), "cycle": None}
+    env = {"point": 0, "mask": case["mask"], "kill": ("end" if case["kill"] == npoints(layout) else case["kill"]), "killed_cycles": set(), "cycle": None}
+    classes0 = ["lease-checking-crawler"] if case.get("cls") == "lease" else []
+    if case["kill"] == npoints(layout):
+        classes0.append("kill-after-finished-cycle")
 
-    class C(ShareCrawler):
+    lease = case.get("cls") == "lease"
+    if lease:
+        from allmydata.storage.expirer import LeaseCheckingCrawler
+        histfile = os.path.join(d, "crawler.history")
+
+        class Base(LeaseCheckingCrawler):
+            def __init__(self, server, statefile):
+                LeaseCheckingCrawler.__init__(self, server, statefile, histfile, False, "age", None, None, ("mutable", "immutable"))
+    else:
+        Base = ShareCrawler
+
+    class C(Base):
         cpu_slice = 1.0
         minimum_cycle_time = 0
+
+        def finished_cycle(self, cycle):
+            Base.finished_cycle(self, cycle)
+            if cycle == 0 and env["kill"] == "end":
+                env["kill"] = None
+                env["killed_cycles"].add(cycle)
+                raise Kill()
 
         def process_bucket(self, cycle, prefix, prefixdir, storage_index_b32):
             log.append((cycle, storage_index_b32))
@@ -106,7 +131,7 @@ def run_case(case, ctx):
             os.makedirs(os.path.join(ss.sharedir, pre, name))
             buckets.append(name)
     c = C(ss, statefile)
-    classes = set()
+    classes = set(classes0)
     interruptions = 0
     finished = []
     guard = 0
@@ -147,5 +172,5 @@ def run_case(case, ctx):
     ctx.check(finished == [0, 1], "cycle-number", "completed cycles %r" % finished)
     boot.cancel_all_timers()
     nt = case["mask"] != 0 or case["kill"] is not None
-    ctx.note(sig=(tuple(layout), case["mask"], case["restart"], case["kill"]), nontrivial=nt, classes=sorted(classes),
+    ctx.note(sig=(tuple(layout), case["mask"], case["restart"], case["kill"], case.get("cls")), nontrivial=nt, classes=sorted(classes),
              sample={"case": case, "processing_order_cycle0": [b for (cy, b) in log if cy == 0]})
